@@ -1,10 +1,12 @@
-"""C10 — configuration of the check (deductive tier under construction)."""
+"""C10 — Concurrent updates of one tile never lose a contribution."""
 PROPERTY = "C10"
-LEVEL = "exploration"
-CONTRACT_MODULES = ["contracts.specfuns"]
-FUNCTIONS = []
+LEVEL = "other"
+CONTRACT_MODULES = ["contracts.specfuns", "contracts.lemmas_desc", "contracts.pyramid", "contracts.image", "contracts.merge", "contracts.pyramidio"]
+FUNCTIONS = ["toasty.pyramid.PyramidIO.update_image"]
 LEMMAS = []
 SLOW = ()
-TRUSTED_BASE = []
-ASSUMPTIONS = []
-EXPLANATION = "bounded run-time tier only so far"
+TRUSTED_BASE = ["pyvc VC generator; z3/cvc5",
+                "SoftFileLock(path): mutual exclusion per path across processes, released on exit (normal or exceptional)"]
+ASSUMPTIONS = ["from the locking discipline proved here and the lock contract, critical sections on one tile are totally "
+               "ordered and each reads its predecessor's file; real interleavings are exercised by the bounded tier only"]
+EXPLANATION = "update_image holds one lock, keyed by the tile only, from before the read until after the write; released without writing if the body raises"
